@@ -9,7 +9,7 @@ import (
 // alphabets
 var (
 	asciiLetters = []string{"a", "b", "c", "x", "y", "z", "A", "Z", "0", "1", "5", "9", "_"}
-	fourByte     = []string{"😀", "𠀀", "𝄞", "🀄"} // one character, four bytes each
+	fourByte     = []string{"😀", "𠀀", "𝄞", "🀄"}                               // one character, four bytes each
 	cjk          = []string{"中", "文", "必", "填", "说", "明", "一", "龥", "龦", "㐀"} // 一 U+4E00, 龥 U+9FA5 inside; 龦 U+9FA6, 㐀 U+3400 outside
 	punct        = []string{"=", "~", "/", "(", ")", "|", ",", "'", " ", "-", ":", ".", "@", "+", "\\", ";", "\"", "%", "&", "?", "$"}
 	ctrl         = []string{"\x00", "\n", "\t", "\r", "\x1a", "\x7f"}
